@@ -8,6 +8,7 @@ import (
 	"encoding/json"
 	"fmt"
 	"os"
+	"path/filepath"
 	"strconv"
 )
 
@@ -57,6 +58,8 @@ func main() {
 			repoDir = os.Args[i+1]
 		case "--replay":
 			replayFile = os.Args[i+1]
+		case "--root":
+			rootDir = os.Args[i+1]
 		}
 	}
 	def, ok := props[prop]
@@ -64,7 +67,7 @@ func main() {
 		fmt.Println("unknown property", prop)
 		os.Exit(2)
 	}
-	loadKnown("/verif/findings/known_findings.txt")
+	loadKnown(filepath.Join(rootDir, "findings/known_findings.txt"))
 	c := NewCtx(prop, tier, seed)
 	var proof *proofInfo
 	if proofFile != "" {
